@@ -3,7 +3,7 @@ CONSTANTS ResetOnError = TRUE
  ZeroTimerGuarded = TRUE
  KindSet = "all"
  NN = 2
- Mode = "labels"
+ Mode = "plain"
 INVARIANT Released
 INVARIANT Depth1
 INVARIANT RecursionIsFatal
